@@ -261,6 +261,23 @@ def rule_for_to_while(text, counter):
     return text
 
 
+def rule_chunks_to_while(text, counter):
+    """R8 (structural): `for PAT in EXPR.chunks(N) {` -> index while loop over vx_chunk_count/vx_chunk
+    (specified stand-ins for the slice chunks iterator). Body untouched."""
+    n = [0]
+    while True:
+        m = rc.mask(text)
+        mm = re.search(r"\bfor\s+([A-Za-z_][A-Za-z0-9_]*)\s+in\s+([A-Za-z_][A-Za-z0-9_.]*?)\s*\.\s*chunks\s*\(\s*([0-9A-Za-z_]+)\s*\)\s*\{", m)
+        if not mm:
+            return text
+        c = "vx_c%d" % n[0]
+        n[0] += 1
+        new = ("let mut %s: usize = 0;\n while %s < vx_chunk_count(%s, %s) {\n let %s = vx_chunk(%s, %s, %s); %s += 1;"
+               % (c, c, mm.group(2), mm.group(3), mm.group(1), mm.group(2), mm.group(3), c, c))
+        text = text[:mm.start()] + new + text[mm.end():]
+        counter.hit("R8.chunks_to_while")
+
+
 def rule_or_else(text, counter):
     """R11: `E.or_else(|| B)` -> match E { Some(vx_v) => Some(vx_v), None => B } (same evaluation order)."""
     while True:
@@ -489,6 +506,8 @@ def apply_rewrite(t, rw, counter):
         t = rule_macros_v(t, counter)
     elif rule == "R8.for":
         t = rule_for_to_while(t, counter)
+    elif rule == "R8.chunks":
+        t = rule_chunks_to_while(t, counter)
     elif rule == "R11":
         t = rule_or_else(t, counter)
     elif rule == "subst":
